@@ -44,6 +44,10 @@ type RaftGroup struct {
 	processSnapshotFn ProcessFn
 	snapshotFn        SnapshotFn
 
+	// Closed when the run loop has exited
+	doneC   chan struct{}
+	started bool
+
 	raft          etcdRaft.Node
 	raftConfState *raftpb.ConfState
 	raftLeaderId  uint64
@@ -125,6 +129,7 @@ func NewRaftGroup(id uuid.UUID, nodeIds []uint64, storage wal.WAL, transport *Ra
 		processFn:         nil,
 		processSnapshotFn: nil,
 		snapshotFn:        nil,
+		doneC:             make(chan struct{}),
 		raft:              raftNode,
 		wal:               storage,
 		log:               logger,
@@ -147,6 +152,7 @@ func (this *RaftGroup) Start() error {
 			return err
 		}
 	}
+	this.started = true
 	go this.run()
 	return nil
 }
@@ -154,6 +160,11 @@ func (this *RaftGroup) Start() error {
 func (this *RaftGroup) Stop() {
 	this.raft.Stop()
 	this.ctxCancel()
+	if this.started {
+		// The run loop may be in the middle of a batch. Callers delete the group's log
+		// right after Stop, the loop must not save to (or read from) it any more.
+		<-this.doneC
+	}
 
 	if err := this.transport.removeGroup(this.id); err != nil {
 		this.log.Error(err)
@@ -215,6 +226,8 @@ func (this *RaftGroup) ProposeLeave(nodeId uint64) error {
 }
 
 func (this *RaftGroup) run() {
+	defer close(this.doneC)
+
 	ticker := time.NewTicker(100 * time.Millisecond)
 	defer ticker.Stop()
 
